@@ -427,8 +427,28 @@ def r5_no_back_reference(m):
     return r
 
 
+def r6_importable(m):
+    r = RuleResult("C18.R6", "every node class (and every class reachable from a node) can be found again by module and qualified name, which is "
+                             "how pickle stores a class: no node class is local to a function")
+    r.floor = 300
+    base = m.key("Base", UTILS)
+    for k, c in sorted(m.classes.items()):
+        if not (m.issub(k, base) or c["module"] in ("fparser.common.readfortran", "fparser.common.sourceinfo")):
+            continue
+        if c.get("generated"):
+            continue
+        r.instances += 1
+        ok = c.get("importable") is True
+        r.ob(ok, "%s.%s" % (c["module"], c.get("qualname")) if r.instances % 100 == 0 else None)
+        if not ok:
+            r.fail("%s|not-importable" % c["name"], "class %s (qualified name %s.%s) is not reachable as an attribute of its module under that name: "
+                   "pickle.dumps of a tree that holds such a node (or whose reader items cached one) fails with \"Can't pickle local object\""
+                   % (c["name"], c["module"], c.get("qualname")), m.class_loc(k))
+    return r
+
+
 def run(m, tier):
-    results = [r1_newargs_vs_new(m), r2_attrs_set(m), r3_no_custom_protocol(m), r4_reachable_state(m), r5_no_back_reference(m)]
+    results = [r1_newargs_vs_new(m), r2_attrs_set(m), r3_no_custom_protocol(m), r4_reachable_state(m), r5_no_back_reference(m), r6_importable(m)]
     expl = ("Decides that the copy protocol is well-typed over the whole node class hierarchy: for each of the ~500 node classes the "
             "tuple returned by its resolved __getnewargs__ binds to its resolved __new__, the _deepcopy flag is True and, under that "
             "flag, __new__ returns a fresh object without running a matcher or touching the stored text (abstract interpretation of "
